@@ -28,7 +28,7 @@ TRUSTED = ['correspondence harness (pv.engine, pv.proto) and generators / refere
 ASSUMPTIONS = ['pyg_base.sort orders the (key, row id) pairs as the model of C07 does (native sorted() agrees with cmp whenever it does not raise)',
                'callables used as computed keys / modes are pure; only the named callables id, dbl, const / fst, snd, swap, lst are exercised',
                'termination of the implementation is observed through a 2 s alarm per call, in the model it is proved',
-               'keys outside the property universe are not generated: bools (True == 1 but cmp differs), +-inf (cmp identifies them with NaN), containers']
+               'keys outside the property universe are not generated: bools (True == 1 but cmp differs), containers']
 CALL_TIMEOUT = 8
 
 D = datetime.datetime
@@ -37,7 +37,8 @@ logging.getLogger('pyg').setLevel(logging.ERROR)
 
 NAN = 'fresh-nan'          # placeholder: a fresh float('nan') object per occurrence
 SNAN = 'shared-nan'        # the one np.nan object
-KEYS = [None, 0, 1, 2, 3, 1.0, 2.0, 2.5, -0.25, 'a', 'b', '', D(2020, 1, 1), D(2020, 1, 2, 12), NAN, NAN, SNAN]
+INF = float('inf')
+KEYS = [None, 0, 1, 2, 3, 1.0, 2.0, 2.5, -0.25, 'a', 'b', '', D(2020, 1, 1), D(2020, 1, 2, 12), NAN, NAN, SNAN, INF, -INF]
 VALS = [None, 1, 2, 'p', 'q', 0.5]
 
 
@@ -80,6 +81,8 @@ def rand_pool(rng):
         return rng.sample([1, 1.0, 2, 2.0, None, NAN, SNAN, 2.5], rng.choice([2, 3, 4]))
     if r < 0.4:    # NaN heavy
         return [NAN, SNAN, rng.choice(KEYS)]
+    if r < 0.5:    # infinities next to finite numbers and NaN
+        return rng.sample([INF, -INF, 1, 2.5, NAN, None], rng.choice([2, 3, 4]))
     if r < 0.9:    # mixed types, few values -> many duplicates, many-to-many matches
         return rng.sample(KEYS, rng.choice([1, 2, 3, 4]))
     return list(KEYS)
